@@ -88,9 +88,8 @@ def rule_reset(facts, rep):
     r = facts.body("anstyle", "anstyle::reset::RESET")
     rep.check(hir.lit_val(ac.single_expr(r["hir"])) == "\x1b[0m", "reset", r["path"], "is-ESC[0m", "the reset written after the data is SGR 0", loc(r))
     rd = facts.body("anstyle", "<anstyle::reset::Reset as core::fmt::Display>::fmt")
-    e = ac.single_expr(rd["hir"])
-    rep.check(hir.is_call(e, "core::fmt::Formatter::<'a>::write_str") and hir.is_def(e["args"][1], "reset::RESET"), "reset", rd["path"],
-              "writes-RESET", "", loc(rd))
+    ok_, found_ = ac.reset_display_ok(facts)
+    rep.check(ok_, "reset", rd["path"], "writes-RESET", f"Display for Reset writes ESC[0m verbatim, once, with no padding: {found_}", loc(rd))
 
 
 def rule_order(facts, rep):
